@@ -165,7 +165,7 @@ def digits_bound(items: T.Sequence[T.Any]) -> T.Optional[T.Tuple[int, T.Optional
 _ROLE_SAMPLES: T.List[T.Tuple[str, T.List[str], T.List[str]]] = [
     ('status', ['ok', 'not ok'], ['', 'not', 'notok', 'ok ', 'not  ok', 'okay', 'OK', 'nok', '1']),
     ('directive', ['SKIP', 'skip', 'sKiP', 'SKIPPED', 'skip-all', 'TODO', 'todo', 'ToDo'],
-     ['', 'SKI', 'TOD', 'TODOS', 'FIXME', 'SKIP ME', ' skip', '1']),
+     ['', 'SKI', 'TOD', 'TODOS', 'TODO-later', 'todo:', 'TODO(x)', 'FIXME', 'SKIP ME', ' skip', '1']),
     ('indent', [' ', '  ', '\t', ' \t '], ['', 'a', ' a', '-', '1']),
     ('name', ['', 'foo', '- a b ', '1 x'], ['#', 'a#b', 'a # SKIP']),
     ('text', ['', 'foo', 'a#b', '  x  ', '1'], []),
@@ -211,6 +211,23 @@ def diagnose(pattern: str, flags: int, kind: str) -> T.List[T.Tuple[str, str]]:
     gs = groups(pattern, flags)
     roles = [role(gs[i].items) for i in sorted(gs)]
     if roles != want_roles:
+        # a directive group whose language reaches beyond the directive words (every accept sample of the role is captured, and so is a
+        # reject sample) while every other group has its role: a defect of the pattern, not a different layout
+        idx = sorted(gs)
+        wide: T.List[T.Tuple[int, str]] = []
+        if len(roles) == len(want_roles):
+            for k, (have, want) in enumerate(zip(roles, want_roles)):
+                if have != want:
+                    acc_s, rej_s = next((a_, r_) for n_, a_, r_ in _ROLE_SAMPLES if n_ == want) if want == 'directive' else ([], [])
+                    hit = [r for r in rej_s if accepts(gs[idx[k]].items, r)] if acc_s and all(accepts(gs[idx[k]].items, a) for a in acc_s) else []
+                    if not hit or digits_bound(gs[idx[k]].items) is not None:
+                        wide = []
+                        break
+                    wide.append((idx[k], hit[0]))
+        if wide:
+            for g, w in wide:
+                out.append(('sample', f'captures {w!r} in group {g} (the directive word), which is neither SKIP... nor TODO: such a comment becomes a '
+                                      f'directive, and the directive-adjusted status / the invalid-directive Error of parse_test follows from it'))
         out.append(('structure', f'capture groups denote {roles}, expected {want_roles}'))
     lead = rx.literal_prefix(list(rx.parse(pattern, flags)))
     if lit is not None and lead != lit:
